@@ -114,6 +114,28 @@ func vcRunC09(t *vcTrial, cfg vc09Cfg) {
 	}
 	defer srv.Stop(3 * time.Second)
 	mark := vcTraceMark()
+	// diagnosis: the connection's lifecycle state and close status at the moment the hang-up path
+	// holds the connecting lock in onDisconnect
+	var stAtLocked, clAtLocked int32 = -1, -1
+	vcPointCallback.Store(func(id int, obj uintptr, arg int) {
+		if id == vpOnDisconnectLocked {
+			srv.recs.Range(func(k, v interface{}) bool {
+				if rc := v.(*vcConnRec); rc.ID == obj {
+					in := vcInner(rc.Conn)
+					atomic.StoreInt32(&stAtLocked, int32(in.getState()))
+					atomic.StoreInt32(&clAtLocked, in.status(closing))
+				}
+				return true
+			})
+		}
+	})
+	defer vcPointCallback.Store(func(id int, obj uintptr, arg int) {})
+	defer func() {
+		if t.Violated() {
+			t.P("state_at_OnDisconnectLocked", atomic.LoadInt32(&stAtLocked))
+			t.P("closing_at_OnDisconnectLocked", atomic.LoadInt32(&clAtLocked))
+		}
+	}()
 	// the first `inputs` of the connection must come after OnPrepare finished: record the trace
 	// position of the first InputAck per connection via the trace itself (checked below)
 	_ = firstInputs
